@@ -275,6 +275,9 @@ func (this *Dataset) PartitionBatchInsert(ctx context.Context, partitionId uuid.
 	if err != nil {
 		return nil, err
 	}
+	if err := this.checkBatchItems(items, true); err != nil {
+		return nil, err
+	}
 
 	return partition.batchInsert(ctx, items)
 }
@@ -318,6 +321,9 @@ func (this *Dataset) PartitionBatchUpdate(ctx context.Context, partitionId uuid.
 	if err != nil {
 		return nil, err
 	}
+	if err := this.checkBatchItems(items, true); err != nil {
+		return nil, err
+	}
 
 	return partition.batchUpdate(ctx, items)
 }
@@ -341,6 +347,9 @@ func (this *Dataset) BatchRemove(ctx context.Context, items []*pb.BatchItem) (ma
 func (this *Dataset) PartitionBatchRemove(ctx context.Context, partitionId uuid.UUID, items []*pb.BatchItem) (map[uuid.UUID]error, error) {
 	partition, err := this.getPartition(partitionId)
 	if err != nil {
+		return nil, err
+	}
+	if err := this.checkBatchItems(items, false); err != nil {
 		return nil, err
 	}
 
@@ -440,6 +449,23 @@ func (this *Dataset) getPartitionForId(id uuid.UUID) *partition {
 func (this *Dataset) checkDimension(value *math.Vector) error {
 	if uint32(len(*value)) != this.Meta().GetDimension() {
 		return DimensionMissmatchErr
+	}
+	return nil
+}
+
+// Items of a partition batch request end up in the replicated log as they are,
+// so their ids (and values) have to be well formed before they are proposed.
+func (this *Dataset) checkBatchItems(items []*pb.BatchItem, withValue bool) error {
+	for _, item := range items {
+		if _, err := uuid.FromBytes(item.GetId()); err != nil {
+			return err
+		}
+		if withValue {
+			value := math.Vector(item.GetValue())
+			if err := this.checkDimension(&value); err != nil {
+				return err
+			}
+		}
 	}
 	return nil
 }
